@@ -8,7 +8,7 @@ Base == << << M(<<97>>, <<11,12,13,14,15>>), M(<<98,98>>, <<21,22>>) >>,
 \* two call scripts per image: members in ascending and in descending order, so that a refused call is followed by calls on
 \* other (intact) members in both directions
 CallsDir(n, up) == << [call |-> "GetCount", i |-> 0] >> \o Flatten([j \in 1..(n + 2) |-> LET i == IF up THEN j - 1 ELSE n + 2 - j IN << [call |-> "GetName", i |-> i], [call |-> "GetSize", i |-> i],
-                 [call |-> "OpenStream", i |-> i], [call |-> "GetName", i |-> i], [call |-> "Extract", i |-> i], [call |-> "SeekBeyond", i |-> i], [call |-> "OpenStream", i |-> i] >>])
+                 [call |-> "OpenStream", i |-> i], [call |-> "GetName", i |-> i], [call |-> "Extract", i |-> i], [call |-> "SeekBeyond", i |-> i], [call |-> "OpenStreamAfterFailedRead", i |-> i], [call |-> "OpenStream", i |-> i] >>])
 Emit(id, img, n) == \A up \in BOOLEAN : PrintT("S|" \o ToJson([id |-> <<id, up>>, steps |-> << [op |-> "robust_vol", image |-> img, calls |-> CallsDir(n, up)] >>]))
 \* an archive from the independent encoder whose last member is LZH-compressed: truncations inside its block and corruptions of its lengths
 LZ == INSTANCE LzhEnc WITH NSym <- 314, MaxCount <- 65535
